@@ -188,6 +188,24 @@ def hostile_scn(case, res):
 
         for step in range(prm.get("n_ops", 50)):
             r = rng.random()
+            if rng.random() < 0.08:
+                # a hostile peer may also stop reading or have a dead socket while it keeps sending
+                import errno as E
+                c = hconn(rng.choice(["raw", "uds", "ws"]))
+                c.healthy = False
+                if rng.random() < 0.5:
+                    S.sim.wpol(c.fd, budget=rng.choice([0, 0, 3, 100]))
+                else:
+                    S.sim.wpol(c.fd, err=rng.choice([E.EPIPE, E.ECONNRESET]), after=rng.randrange(0, 2))
+                S.ops.append(["hostile-socket-fault", c.name])
+                S.sig("hostile-socket-fault", c.transport)
+                burst = b""
+                for _ in range(rng.choice([1, 5, 60])):
+                    if c.transport == "ws" and rng.random() < 0.6:
+                        burst += wire.ws_frame(9, b"z" * rng.choice([0, 125]), mask=b"\x01\x01\x01\x01")
+                    else:
+                        burst += S.frame_for(c, b'{"id":1,"method":"info"}')
+                S.send_bytes(c, burst, pick_chunks(rng))
             if r < 0.34:
                 c = hconn(rng.choice(["raw", "uds", "ws"]))
                 pl, _ = hostile.hostile_payload(rng, paths, ["f1", 7])
